@@ -284,6 +284,9 @@ func hookEvent(ev int, t interface{}, inum uint64) {
 	case vh.EvCommitFailed:
 		m.failedCommits++
 	case vh.EvPostCommit:
+		// the locks are released, the reply is not built yet: a yield here
+		// lets another request change what a late reader would see
+		doYield = true
 		delete(m.txns, t)
 	case vh.EvAbort:
 		m.aborts++
